@@ -58,7 +58,12 @@ type Msg struct {
 	// scripted body: chunk sizes (0 = one Read that returns 0, nil), content
 	// kit.Bytes(Seed, sum); EOFWithData: the final bytes come together with
 	// the terminal error; Fail: the terminal error is not io.EOF.
-	Chunks      []int  `json:"chunks,omitempty"`
+	Chunks []int `json:"chunks,omitempty"`
+	// ChunkErr[i] (missing = 0): 1 = the Read that delivers the last bytes of
+	// chunk i also returns a transient, timeout-type error; 2 = after chunk i one
+	// Read returns (0, that error). The body carries on afterwards and the
+	// consumer retries.
+	ChunkErr    []int  `json:"chunk_err,omitempty"`
 	EOFWithData bool   `json:"eof_with_data,omitempty"`
 	Fail        bool   `json:"fail,omitempty"`
 	Seed        uint64 `json:"seed"`
@@ -73,7 +78,11 @@ type Msg struct {
 
 // LogCase is a set of messages logged concurrently to one stream.
 type LogCase struct {
-	Modifier   bool  `json:"modifier,omitempty"` // through marbl.Modifier (IDs from the martian context) instead of Stream.Log*
+	Modifier bool `json:"modifier,omitempty"` // through marbl.Modifier (IDs from the martian context) instead of Stream.Log*
+	// Second: every message is logged to two streams (two modifiers in one
+	// modifier tree, e.g. a file and the websocket handler), first to one then
+	// to the other, under the same ID; each stream has its own recording.
+	Second     bool  `json:"second,omitempty"`
 	Msgs       []Msg `json:"msgs"`
 	SlowWriter int   `json:"slow_writer,omitempty"` // Gosched calls inside the recording writer
 }
@@ -90,28 +99,64 @@ func (m Msg) total() int {
 
 var errScripted = errors.New("c19: scripted body failure")
 
+// transientErr is a timeout-type error: the read may be retried.
+type transientErr struct{}
+
+func (transientErr) Error() string   { return "c19: scripted transient timeout" }
+func (transientErr) Timeout() bool   { return true }
+func (transientErr) Temporary() bool { return true }
+
+var errTransient error = transientErr{}
+
 type scripted struct {
-	data   []byte
-	chunks []int
-	ci     int // current chunk
-	left   int // bytes left in the current chunk (valid when started)
-	pos    int
-	start  bool
-	eofWD  bool
-	term   error
-	done   bool
-	closed int
+	data    []byte
+	chunks  []int
+	cerr    []int
+	ci      int // current chunk
+	left    int // bytes left in the current chunk (valid when started)
+	pos     int
+	start   bool
+	pending bool // a Read returning (0, errTransient) is due
+	eofWD   bool
+	term    error
+	done    bool
+	closed  int
 }
 
 func newScripted(m Msg) *scripted {
-	s := &scripted{data: kit.Bytes(m.Seed, m.total()), chunks: m.Chunks, eofWD: m.EOFWithData, term: io.EOF}
+	s := &scripted{data: kit.Bytes(m.Seed, m.total()), chunks: m.Chunks, cerr: m.ChunkErr, eofWD: m.EOFWithData, term: io.EOF}
 	if m.Fail {
 		s.term = errScripted
 	}
 	return s
 }
 
+// finish closes chunk ci after n bytes were delivered by the current Read.
+func (s *scripted) finish(n int) (int, error) {
+	ce := 0
+	if s.ci < len(s.cerr) {
+		ce = s.cerr[s.ci]
+	}
+	s.ci++
+	s.start = false
+	if s.ci >= len(s.chunks) && s.eofWD {
+		s.done = true
+		return n, s.term
+	}
+	switch ce {
+	case 1:
+		return n, errTransient
+	case 2:
+		s.pending = true
+	}
+	return n, nil
+}
+
 func (s *scripted) Read(b []byte) (int, error) {
+	if s.pending {
+		s.pending = false
+		return 0, errTransient
+	}
 	if s.done || s.ci >= len(s.chunks) {
 		s.done = true
 		return 0, s.term
@@ -120,13 +165,7 @@ func (s *scripted) Read(b []byte) (int, error) {
 		s.left, s.start = s.chunks[s.ci], true
 	}
 	if s.left == 0 { // a scripted empty read
-		s.ci++
-		s.start = false
-		if s.ci >= len(s.chunks) && s.eofWD {
-			s.done = true
-			return 0, s.term
-		}
-		return 0, nil
+		return s.finish(0)
 	}
 	n := len(b)
 	if n > s.left {
@@ -136,12 +175,7 @@ func (s *scripted) Read(b []byte) (int, error) {
 	s.pos += n
 	s.left -= n
 	if s.left == 0 {
-		s.ci++
-		s.start = false
-		if s.ci >= len(s.chunks) && s.eofWD {
-			s.done = true
-			return n, s.term
-		}
+		return s.finish(n)
 	}
 	return n, nil
 }
@@ -204,6 +238,8 @@ func (m Msg) bodyShape(reads int, stoppedEarly bool) string {
 	switch {
 	case stoppedEarly:
 		return "early-stop"
+	case m.hasTransient():
+		return "transient-read-error"
 	case m.Fail:
 		return "read-error"
 	case m.total() == 0:
@@ -212,6 +248,15 @@ func (m Msg) bodyShape(reads int, stoppedEarly bool) string {
 		return "multi-read"
 	}
 	return "short-body"
+}
+
+func (m Msg) hasTransient() bool {
+	for _, e := range m.ChunkErr {
+		if e != 0 {
+			return true
+		}
+	}
+	return false
 }
 
 func mtName(resp bool) string {
@@ -481,7 +526,7 @@ func logGroup(idxs []int, msgs []Msg, bs []*built, doLog func(i int) (io.ReadClo
 				if err == io.EOF {
 					b.exp.sawEOF = true
 				}
-				if err != nil {
+				if err != nil && err != errTransient { // a timeout is retried
 					if extra == 0 {
 						break
 					}
@@ -598,48 +643,80 @@ func analyse(root, conc string, frames []pframe, msgs []Msg, bs []*built, ignore
 	return fails
 }
 
+// logSink is one marbl stream with its recording.
+type logSink struct {
+	root   string // signature root
+	rec    *recorder
+	stream *marbl.Stream
+	mod    *marbl.Modifier
+}
+
 func runLog(c LogCase) kit.Verdict {
 	kit.Assume("logged messages carry a non-nil Body and have a martian context (true for every message the proxy hands to a modifier); IDs passed to Stream.LogRequest/LogResponse are at least 8 bytes long")
-	rec := &recorder{yield: c.SlowWriter}
-	var stream *marbl.Stream
-	var mod *marbl.Modifier
-	if c.Modifier {
-		mod = marbl.NewModifier(rec)
-	} else {
-		stream = marbl.NewStream(rec)
+	sinks := []*logSink{{root: "C19/"}}
+	if c.Second {
+		sinks = append(sinks, &logSink{root: "C19/second-stream-"})
 	}
+	for _, k := range sinks {
+		k.rec = &recorder{yield: c.SlowWriter}
+		if c.Modifier {
+			k.mod = marbl.NewModifier(k.rec)
+		} else {
+			k.stream = marbl.NewStream(k.rec)
+		}
+	}
+	closeStreams := func() bool {
+		ok := true
+		for _, k := range sinks {
+			if k.stream != nil {
+				st := k.stream
+				k.stream = nil
+				cdone := make(chan struct{})
+				go func() { st.Close(); close(cdone) }()
+				ok = waitBounded("logging", cdone) && ok
+			}
+		}
+		return ok
+	}
+	defer closeStreams()
 	conc := "single-message"
 	if len(c.Msgs) >= 2 {
 		conc = "concurrent-messages"
 	}
-	bs, removes, drop, bv := buildMsgs(c.Msgs, c.Modifier)
+	bs, removes, _, bv := buildMsgs(c.Msgs, c.Modifier)
 	defer func() {
 		for _, rm := range removes {
 			rm()
 		}
 	}()
-	if drop || bv != nil {
-		if stream != nil {
-			stream.Close()
-		}
+	if bv != nil {
 		return bv
 	}
 	sink := &failSink{}
+	// like a modifier tree holding several marbl loggers: each logs the
+	// message in turn, then the body is read once through all the wrappers
 	doLog := func(i int) (io.ReadCloser, error) {
 		m, b := c.Msgs[i], bs[i]
-		switch {
-		case c.Modifier && m.Resp:
-			err := mod.ModifyResponse(b.res)
-			return b.res.Body, err
-		case c.Modifier:
-			err := mod.ModifyRequest(b.req)
-			return b.req.Body, err
-		case m.Resp:
-			err := stream.LogResponse(m.ID, b.res)
-			return b.res.Body, err
+		for _, k := range sinks {
+			var err error
+			switch {
+			case c.Modifier && m.Resp:
+				err = k.mod.ModifyResponse(b.res)
+			case c.Modifier:
+				err = k.mod.ModifyRequest(b.req)
+			case m.Resp:
+				err = k.stream.LogResponse(m.ID, b.res)
+			default:
+				err = k.stream.LogRequest(m.ID, b.req)
+			}
+			if err != nil {
+				return nil, err
+			}
 		}
-		err := stream.LogRequest(m.ID, b.req)
-		return b.req.Body, err
+		if m.Resp {
+			return b.res.Body, nil
+		}
+		return b.req.Body, nil
 	}
 	var idxs []int
 	for i := range c.Msgs {
@@ -650,8 +727,8 @@ func runLog(c LogCase) kit.Verdict {
 	}
 	fails := sink.verdict()
 
-	// fence: the stream writes frames in the order it accepted them, so once
-	// a frame of a message logged after all the others has reached the writer,
+	// fence: a stream writes frames in the order it accepted them, so once a
+	// frame of a message logged after all the others has reached the writer,
 	// every frame of the others has.
 	var fence *http.Request
 	fenceID := "\x00fence\x00\x00"
@@ -681,62 +758,69 @@ func runLog(c LogCase) kit.Verdict {
 		}
 		kit.Inconclusive("logging")
 	}
-	rec.mu.Lock()
-	rec.fence = fenceID
-	rec.mu.Unlock()
+	for _, k := range sinks {
+		k.rec.mu.Lock()
+		k.rec.fence = fenceID
+		k.rec.mu.Unlock()
+	}
 	fdone := make(chan struct{})
 	go func() {
 		defer close(fdone)
-		if c.Modifier {
-			mod.ModifyRequest(fence)
-		} else {
-			stream.LogRequest(fenceID, fence)
+		for _, k := range sinks {
+			if c.Modifier {
+				k.mod.ModifyRequest(fence)
+			} else {
+				k.stream.LogRequest(fenceID, fence)
+			}
 		}
 	}()
-	fenced := func() bool { return atomic.LoadInt32(&rec.fenced) != 0 }
+	fenced := func() bool {
+		for _, k := range sinks {
+			if atomic.LoadInt32(&k.rec.fenced) == 0 {
+				return false
+			}
+		}
+		return true
+	}
 	if !waitBounded("logging", fdone) || !kit.Eventually(kit.T(), fenced) {
 		if !kit.Eventually(3*kit.T(), fenced) {
 			return kit.Failf("C19/logging/"+conc+"/logging-did-not-finish", "no frame of a further message logged after all others reached the writer within %v", 4*kit.T())
 		}
 		kit.Inconclusive("logging")
 	}
-	if stream != nil {
-		cdone := make(chan struct{})
-		go func() { stream.Close(); close(cdone) }()
-		if !waitBounded("logging", cdone) {
-			return kit.Failf("C19/logging/"+conc+"/logging-did-not-finish", "Stream.Close did not return within %v", 4*kit.T())
-		}
+	if !closeStreams() {
+		return kit.Failf("C19/logging/"+conc+"/logging-did-not-finish", "Stream.Close did not return within %v", 4*kit.T())
 	}
 	if len(fails) > 0 {
 		return fails
 	}
 
-	// ---- the recording
-	writes := rec.snapshot()
-	if atomic.LoadInt32(&rec.overlap) != 0 {
-		// an io.Writer need not be safe for concurrent use: frames handed to it
-		// from several goroutines at once can interleave inside the writer
-		fails.Addf("C19/tearing/"+conc+"/overlapping-write-calls", "two Write calls on the stream's writer were in progress at the same time")
-	}
-	var all []byte
-	for wi, w := range writes {
-		fr, st, _ := parseAll(w)
-		if len(fr) != 1 || st.Shape != "clean-end" {
-			fails.Addf("C19/tearing/"+conc+"/write-is-not-one-whole-frame", "Write call %d of %d (%d bytes) is not exactly one frame: %d whole frames, then %s at offset %d", wi, len(writes), len(w), len(fr), st.Shape, st.Off)
-			break
+	// ---- the recordings: every stream must hold all of every message
+	for _, k := range sinks {
+		writes := k.rec.snapshot()
+		torn := false
+		if atomic.LoadInt32(&k.rec.overlap) != 0 {
+			// an io.Writer need not be safe for concurrent use: frames handed to it
+			// from several goroutines at once can interleave inside the writer
+			fails.Addf(k.root+"tearing/"+conc+"/overlapping-write-calls", "two Write calls on the stream's writer were in progress at the same time")
 		}
-		all = append(all, w...)
+		for wi, w := range writes {
+			fr, st, _ := parseAll(w)
+			if len(fr) != 1 || st.Shape != "clean-end" {
+				fails.Addf(k.root+"tearing/"+conc+"/write-is-not-one-whole-frame", "Write call %d of %d (%d bytes) is not exactly one frame: %d whole frames, then %s at offset %d", wi, len(writes), len(w), len(fr), st.Shape, st.Off)
+				torn = true
+				break
+			}
+		}
+		all := bytes.Join(writes, nil)
+		frames, st, _ := parseAll(all)
+		if st.Shape != "clean-end" && !torn {
+			fails.Addf(k.root+"stream/"+conc+"/recording-is-not-a-frame-sequence", "the %d recorded bytes stop parsing at offset %d after %d frames: %s", len(all), st.Off, len(frames), st.Shape)
+		}
+		rv, _ := checkReader(k.root+"stream", all)
+		fails = append(fails, rv...)
+		fails = append(fails, analyse(k.root, conc, frames, c.Msgs, bs, []string{fenceID})...)
 	}
-	if len(fails) > 0 {
-		all = bytes.Join(writes, nil)
-	}
-	frames, st, _ := parseAll(all)
-	if st.Shape != "clean-end" {
-		fails.Addf("C19/stream/"+conc+"/recording-is-not-a-frame-sequence", "the %d recorded bytes stop parsing at offset %d after %d frames: %s", len(all), st.Off, len(frames), st.Shape)
-	}
-	rv, _ := checkReader("C19/stream", all)
-	fails = append(fails, rv...)
-	fails = append(fails, analyse("C19/", conc, frames, c.Msgs, bs, []string{fenceID})...)
 	return fails
 }
 
@@ -855,6 +939,13 @@ func genMsg(t *rapid.T, i int, reqs []int) Msg {
 	} else if rapid.IntRange(0, 3).Draw(t, "empty_read_only") == 0 {
 		m.Chunks = []int{0}
 	}
+	if len(m.Chunks) > 0 && rapid.IntRange(0, 3).Draw(t, "transient?") == 0 {
+		m.ChunkErr = make([]int, len(m.Chunks))
+		for k := 0; k < 2; k++ {
+			at := rapid.IntRange(0, len(m.Chunks)-1).Draw(t, "transient_at")
+			m.ChunkErr[at] = rapid.IntRange(1, 2).Draw(t, "transient_kind")
+		}
+	}
 	m.EOFWithData = rapid.IntRange(0, 3).Draw(t, "eof_with_data") == 0
 	m.Fail = rapid.IntRange(0, 7).Draw(t, "fail") == 0
 
@@ -900,7 +991,7 @@ func (m Msg) simulate() (reads int, stoppedEarly bool) {
 			return reads, true
 		}
 		_, err := s.Read(buf[:m.Bufs[reads%len(m.Bufs)]])
-		if err != nil {
+		if err != nil && err != errTransient {
 			if extra == 0 {
 				return reads + 1, false
 			}
@@ -913,6 +1004,9 @@ func logClasses(c LogCase) []string {
 	set := map[string]bool{}
 	if c.Modifier {
 		set["through-modifier"] = true
+	}
+	if c.Second {
+		set["two-streams"] = true
 	}
 	if len(c.Msgs) >= 2 {
 		set["concurrent>=2"] = true
@@ -939,6 +1033,9 @@ func logClasses(c LogCase) []string {
 		}
 		if m.Fail {
 			set["read-error"] = true
+		}
+		if m.hasTransient() && !early {
+			set["transient-read-error-retried"] = true
 		}
 		if m.EOFWithData && m.total() > 0 && !m.Fail {
 			set["eof-with-final-bytes"] = true
@@ -981,9 +1078,9 @@ func logNonTrivial(c LogCase) bool {
 
 var propLogging = &kit.Prop[LogCase]{
 	ID: "C19", Name: "logging",
-	Rule: "1..8 requests/responses (URL parts, header multisets incl. large and non-canonical fields, Host/Content-Length/Transfer-Encoding fields, API flag, request/response pairs sharing an ID) logged concurrently to one marbl stream over a recording writer, directly or through marbl.Modifier; bodies are scripted readers (0..1 MiB in chunks, empty reads, EOF with or after the last bytes, or a read error) consumed with generated buffer-size sequences, optional early stop and reads past the end; the recording is parsed with marbl.Reader and an independent parser and compared per (ID, type) with the message and with the reads the consumer made; a twin of the script gives the expected Read results; non-trivial = a body spanning >= 3 reads, an empty body, >= 2 concurrent messages or an early stop",
+	Rule: "1..8 requests/responses (URL parts, header multisets incl. large and non-canonical fields, Host/Content-Length/Transfer-Encoding fields, API flag, request/response pairs sharing an ID) logged concurrently to one marbl stream over a recording writer, directly or through marbl.Modifier, in a quarter of the cases to two streams in turn under the same IDs (each recording must hold everything); bodies are scripted readers (0..1 MiB in chunks, empty reads, transient timeout errors with or without bytes after which the consumer retries, EOF with or after the last bytes, or a final read error) consumed with generated buffer-size sequences, optional early stop and reads past the end; the recording is parsed with marbl.Reader and an independent parser and compared per (ID, type) with the message and with the reads the consumer made; a twin of the script gives the expected Read results; non-trivial = a body spanning >= 3 reads, an empty body, >= 2 concurrent messages or an early stop",
 	Run:  runLog, NonTrivial: logNonTrivial, Classes: logClasses, Journal: true,
-	Gates: map[string]float64{"nontrivial": 0.5, "concurrent>=2": 0.4, "body-spans>=3-reads": 0.4, "empty-body": 0.15, "early-stop": 0.1, "through-modifier": 0.15, "eof-with-final-bytes": 0.1, "request-response-pair": 0.1},
+	Gates: map[string]float64{"nontrivial": 0.5, "concurrent>=2": 0.4, "body-spans>=3-reads": 0.4, "empty-body": 0.15, "early-stop": 0.1, "through-modifier": 0.15, "two-streams": 0.15, "transient-read-error-retried": 0.15, "eof-with-final-bytes": 0.1, "request-response-pair": 0.1},
 	Gen: func(t *rapid.T) LogCase {
 		c := LogCase{Modifier: rapid.IntRange(0, 3).Draw(t, "modifier") == 0}
 		n := rapid.SampledFrom([]int{1, 1, 2, 3, 4, 6, 8}).Draw(t, "messages")
@@ -1005,6 +1102,7 @@ var propLogging = &kit.Prop[LogCase]{
 			c.Msgs = append(c.Msgs, m)
 		}
 		c.SlowWriter = rapid.SampledFrom([]int{0, 0, 1, 3}).Draw(t, "slow_writer")
+		c.Second = rapid.IntRange(0, 3).Draw(t, "second_stream") == 0
 		return c
 	},
 }
